@@ -209,28 +209,50 @@ theorem shape_prefix_rejected (ops : List Op) (h : shapeCheck ops = true) (k : N
 theorem isZeros_spec (z : Bytes) (h : isZeros z = true) : ∀ b ∈ z, b = 0 := by
   simpa [isZeros] using h
 
-/-- from the second superblock write on, the file is the complete image up to trailing zero padding -/
-theorem shape_suffix_complete (ops : List Op) (h : shapeCheck ops = true) (k : Nat) (hk : kFinalOf ops ≤ k) :
-    ∃ pad, image ops = image (ops.take k) ++ pad ∧ ∀ b ∈ pad, b = 0 := by
-  obtain ⟨p, mid, s, pad, rfl, sh⟩ := shape_of_check ops h
-  rw [kFinalOf_shape sh] at hk
-  rcases sh.padOk with hpad | ⟨z, hpad, hz⟩
-  · refine ⟨[], ?_, by simp⟩
+/-- two 96-byte writes at offset 0 with only safe operations in between, then at most one append: from the
+second write on the file is the complete image up to that append -/
+theorem core_suffix (p s : Bytes) (mid pad : List Op) (hp : p.length = sizeofSuper) (hs : s.length = sizeofSuper)
+    (safe : ∀ o ∈ mid, o.Safe)
+    (padOk : pad = [] ∨ ∃ z, pad = [.pwrite (image (.pwrite 0 p :: mid)).length z])
+    (k : Nat) (hk : mid.length + 2 ≤ k) :
+    ∃ pad', image (.pwrite 0 p :: (mid ++ .pwrite 0 s :: pad)) = image ((Op.pwrite 0 p :: (mid ++ .pwrite 0 s :: pad)).take k) ++ pad' ∧
+      (pad' = [] ∨ pad = [.pwrite (image (.pwrite 0 p :: mid)).length pad']) := by
+  rcases padOk with hpad | ⟨z, hpad⟩
+  · refine ⟨[], ?_, Or.inl rfl⟩
     rw [List.take_of_length_le (by rw [hpad]; simp; omega)]; simp
   · by_cases hk2 : mid.length + 3 ≤ k
-    · refine ⟨[], ?_, by simp⟩
+    · refine ⟨[], ?_, Or.inl rfl⟩
       rw [List.take_of_length_le (by rw [hpad]; simp; omega)]; simp
     · have hk3 : k = mid.length + 2 := by omega
-      refine ⟨z, ?_, isZeros_spec z hz⟩
+      refine ⟨z, ?_, Or.inr hpad⟩
       have e1 : Op.pwrite 0 p :: (mid ++ .pwrite 0 s :: pad) = (.pwrite 0 p :: mid ++ [.pwrite 0 s]) ++ pad := by simp
       have e2 : (Op.pwrite 0 p :: (mid ++ .pwrite 0 s :: pad)).take k = .pwrite 0 p :: mid ++ [.pwrite 0 s] := by
         rw [e1, List.take_append_of_le_length (by simp; omega)]
         apply List.take_of_length_le; simp; omega
       rw [e2, e1, hpad]
-      have hb := image_prov_mid p mid (isProvisional_spec p sh.prov).1 sh.safe
+      have hb := image_prov_mid p mid hp safe
       rw [image_snoc, image_snoc]
       have hl : (Op.apply (.pwrite 0 s) (image (.pwrite 0 p :: mid))).length = (image (.pwrite 0 p :: mid)).length := by
-        simp only [Op.apply, filePwrite_length, sh.slen]; omega
+        simp only [Op.apply, filePwrite_length, hs]; omega
       rw [← hl]
       simp only [Op.apply, filePwrite_append]
+
+/-- from the second superblock write on, the file is the complete image up to trailing zero padding -/
+theorem shape_suffix_complete (ops : List Op) (h : shapeCheck ops = true) (k : Nat) (hk : kFinalOf ops ≤ k) :
+    ∃ pad, image ops = image (ops.take k) ++ pad ∧ ∀ b ∈ pad, b = 0 := by
+  obtain ⟨p, mid, s, pad, rfl, sh⟩ := shape_of_check ops h
+  rw [kFinalOf_shape sh] at hk
+  have hpo : pad = [] ∨ ∃ z, pad = [.pwrite (image (.pwrite 0 p :: mid)).length z] := by
+    rcases sh.padOk with h | ⟨z, h, _⟩
+    · exact Or.inl h
+    · exact Or.inr ⟨z, h⟩
+  obtain ⟨pad', h1, h2⟩ := core_suffix p s mid pad (isProvisional_spec p sh.prov).1 sh.slen sh.safe hpo k hk
+  refine ⟨pad', h1, ?_⟩
+  rcases h2 with h2 | h2
+  · rw [h2]; simp
+  · rcases sh.padOk with h | ⟨z, h, hz⟩
+    · rw [h] at h2; simp at h2
+    · rw [h] at h2
+      have : z = pad' := by simpa using h2
+      rw [← this]; exact isZeros_spec z hz
 end Sqfs.Writer
